@@ -4,7 +4,7 @@ from hypothesis import strategies as st
 from ..common import Sub
 from ..e1 import engine
 
-RULE = ("generator bodies as operation lists over {Value(v), await a constant future, await a batch item, await a child task} (any interleaving, trailing "
+RULE = ("generator bodies as operation lists over {Value(v), await a constant future, await a batch item, await a child task, await a dict / tuple / list of futures, bare yield} (any interleaving, trailing "
         "awaits, no Values, empty), optionally consumed through an outer async generator; consumers: list_of_generator, repeated take_first(n) for "
         "0 <= n <= len+2 on one generator (position-pointer model + bound on how far the body has advanced), manual next() misuse before the previous task "
         "is computed, and advancing after exhaustion. non-trivial = the body has an await after its last Value, or a take_first with n = 0 or n > remaining, "
@@ -14,7 +14,8 @@ ASSUMPTIONS = ["bodies that raise are not generated (the property speaks of Valu
 
 def strategy(tier):
     op = st.one_of(st.tuples(st.just("V"), st.integers(0, 9)), st.tuples(st.just("V"), st.integers(0, 9)), st.tuples(st.just("const"), st.integers(0, 9)),
-                   st.tuples(st.just("item"), st.integers(0, 9)), st.tuples(st.just("task"), st.integers(0, 9))).map(list)
+                   st.tuples(st.just("item"), st.integers(0, 9)), st.tuples(st.just("task"), st.integers(0, 9)),
+                   st.tuples(st.sampled_from(["dict", "tuple", "list", "none"]), st.integers(0, 9))).map(list)
     return st.fixed_dictionaries({"body": st.lists(op, max_size=8 if tier == "quick" else 16), "ns": st.lists(st.integers(0, 6), min_size=1, max_size=4),
                                   "nested": st.booleans(), "mode": st.sampled_from(["list", "take", "take", "manual"])})
 
@@ -47,9 +48,26 @@ def check(case, ctx):
                 r = yield DebugBatchItem("g", v)
                 if r != v:
                     wrong_awaits.append((i, k, v, r))
-            else:
+            elif k == "task":
                 r = yield child.asynq(v)
                 if r != v:
+                    wrong_awaits.append((i, k, v, r))
+            elif k == "dict":
+                # every shape a task may await is awaitable here too: a dict / tuple / list of futures, nothing at all
+                r = yield {"a": ConstFuture(v), "b": child.asynq(v)}
+                if r != {"a": v, "b": v}:
+                    wrong_awaits.append((i, k, v, r))
+            elif k == "tuple":
+                r = yield (ConstFuture(v), DebugBatchItem("g", v))
+                if r != (v, v):
+                    wrong_awaits.append((i, k, v, r))
+            elif k == "list":
+                r = yield [child.asynq(v), ConstFuture(v)]
+                if r != [v, v]:
+                    wrong_awaits.append((i, k, v, r))
+            else:
+                r = yield
+                if r is not None:
                     wrong_awaits.append((i, k, v, r))
 
     @async_generator()
@@ -151,6 +169,7 @@ def check(case, ctx):
     ctx.label("no-values", not vals)
     ctx.label("n=0", mode == "take" and 0 in ns)
     ctx.label("nested", nested)
+    ctx.label("structured-or-empty-await", any(k in ("dict", "tuple", "list", "none") for k, v in opl))
     ctx.nontrivial(case, trailing or (mode == "take" and (0 in ns or len(ns) >= 2 or any(n > len(vals) for n in ns))))
     return viol
 
